@@ -5,7 +5,7 @@
    abstracted result), under the object invariant bufidx <= |s| (the array has 65 cells, bufidx <= 64) which every function
    is shown to preserve.  std::from_chars is the parameter `fc`; the model's `parse` is `parse_of fc`. *)
 From Coq Require Import List Ascii Bool Arith Lia.
-From Alpaqa Require Import Csv CsvGenLib CsvGen.
+From Alpaqa Require Import Csv CsvProofs CsvGenLib CsvGen CsvGenInst.
 Import ListNotations.
 
 Definition rabs (s : list ascii) (bufidx : nat) (kp : bool) : reader := mkR (firstn bufidx s) kp.
@@ -181,3 +181,194 @@ Qed.
    `parse (to_chars v) = Some (v, all of it)` of C17_print_read_roundtrip is about *)
 Lemma g_print_precision_is_model : g_print_precision_follows_value_type = true.
 Proof. reflexivity. Qed.
+
+(* ------------------------------------------------------------------------------------------------ whole rows *)
+(* the row readers of CsvGenInst.v (hand-transcribed loops around the GENERATED member functions) against Csv.v *)
+Definition srel (st : gstate) (rd : reader) : Prop := let '(s, b, k) := st in rd = rabs s b k /\ b <= length s.
+
+Definition crel {A B} (RA : A -> B -> Prop) (x : cres A) (y : cres B) : Prop :=
+  match x, y with
+  | (i1, inl e1), (i2, inl e2) => i1 = i2 /\ e1 = e2
+  | (i1, inr a), (i2, inr b) => i1 = i2 /\ RA a b
+  | _, _ => False
+  end.
+
+Lemma crel_bind : forall A B A' B' (RA : A -> B -> Prop) (RB : A' -> B' -> Prop) x y f g,
+  crel RA x y -> (forall is a b, RA a b -> crel RB (f is a) (g is b)) -> crel RB (cbind x f) (cbind y g).
+Proof.
+  intros A B A' B' RA RB [i1 [e1|a]] [i2 [e2|b]] f g H HF; simpl in *; try contradiction.
+  - exact H.
+  - destruct H as [-> H]. apply HF. exact H.
+Qed.
+
+Lemma crel_eq : forall A (x y : cres A), crel eq x y -> x = y.
+Proof. intros A [i1 [e1|a]] [i2 [e2|b]] H; simpl in H; try contradiction; destruct H; subst; reflexivity. Qed.
+
+Section Rows.
+Context {V : Type}.
+Variable fc : list ascii -> fc_result V.
+Variable garbage : V.
+Variable sep : ascii.
+Hypothesis HB : fc_bound fc.
+Let P := parse_of fc.
+
+Lemma gchunk_rel : forall st rd is, srel st rd -> crel srel (gchunk fc st is) (read_chunk rd is).
+Proof.
+  intros [[s b] k] rd is [-> H]. unfold gchunk. pose proof (g_read_chunk_is_model V fc s b k is H) as M.
+  destruct (g_read_chunk fc s b k is) as [i1 [e|[[s1 b1] k1]]].
+  - rewrite M. simpl. auto.
+  - destruct M as [-> M]. simpl. auto.
+Qed.
+
+Lemma gread_rel : forall st rd is, srel st rd ->
+  crel (fun a b => fst a = fst b /\ srel (snd a) (snd b)) (gread fc garbage sep st is) (read P sep rd is).
+Proof.
+  intros [[s b] k] rd is [-> H]. unfold gread. pose proof (g_read_is_model V fc garbage s b k is sep HB H) as M.
+  destruct (g_read fc garbage s b k is sep) as [i1 [e|[[[v s1] b1] k1]]].
+  - unfold P. rewrite M. simpl. auto.
+  - destruct M as [M M']. unfold P. rewrite M. simpl. auto.
+Qed.
+
+Lemma gnext_eq : forall st rd is, srel st rd -> gnext fc st is = next_line rd is.
+Proof. intros [[s b] k] rd is [-> H]. apply g_next_line_is_model. assumption. Qed.
+
+Lemma gdone_eq : forall st rd is, srel st rd -> gdone fc st is = done rd is.
+Proof. intros [[s b] k] rd is [-> H]. apply g_done_is_model. assumption. Qed.
+
+Lemma gdrain_rel : forall fuel st rd is, srel st rd -> crel srel (gdrain fc fuel st is) (drain fuel rd is).
+Proof.
+  induction fuel; intros [[s b] k] rd is [-> H]; simpl; [auto|].
+  destruct k.
+  - change (match read_chunk {| buf := []; keep := true |} is with
+            | (s1, inl e) => (s1, inl e) | (s2, inr rd1) => drain fuel rd1 s2 end)
+      with (cbind (read_chunk {| buf := []; keep := true |} is) (fun s9 rd9 => drain fuel rd9 s9)).
+    eapply crel_bind; [apply (gchunk_rel (s, 0, true)); split; [reflexivity|lia]|].
+    intros. apply IHfuel. assumption.
+  - simpl. split; [reflexivity|]. split; [reflexivity|assumption].
+Qed.
+
+Lemma srel_buf : forall s b k rd, srel (s, b, k) rd ->
+  match buf rd with [] => b = 0 | c :: _ => b <> 0 /\ c = cnth s 0 end /\ keep rd = k.
+Proof.
+  intros s b k rd [-> H]. unfold rabs. cbn [buf keep]. split; [|reflexivity].
+  destruct b; [reflexivity|]. destruct s; simpl in *; [lia|]. split; [lia|reflexivity].
+Qed.
+
+Lemma gskip_loop_rel : forall fuel st rd is, srel st rd -> crel srel (gskip_loop fc fuel st is) (skip_loop fuel rd is).
+Proof.
+  induction fuel; intros st rd is H; cbn [gskip_loop skip_loop]; [simpl; auto|].
+  destruct (eofb is); [simpl; auto|].
+  pose proof (gchunk_rel st rd is H) as C.
+  destruct (gchunk fc st is) as [i1 [e1|[[s1 b1] k1]]], (read_chunk rd is) as [i2 [e2|rd1]]; simpl in C; try contradiction; [exact C|].
+  destruct C as [<- C]. cbn [cbind].
+  destruct (srel_buf _ _ _ _ C) as [B K].
+  destruct (buf rd1) as [|c tl] eqn:EB.
+  - subst b1. simpl. auto.
+  - destruct B as [B ->]. apply Nat.eqb_neq in B. rewrite B. cbn [orb].
+    destruct (Ascii.eqb (cnth s1 0) hash); cbn [negb]; [|simpl; auto].
+    pose proof (gdrain_rel (S (length (rest i1))) (s1, b1, k1) rd1 i1 C) as D.
+    destruct (gdrain fc (S (length (rest i1))) (s1, b1, k1) i1) as [i3 [e3|[[s2 b2] k2]]],
+             (drain (S (length (rest i1))) rd1 i1) as [i4 [e4|rd2]]; simpl in D; try contradiction; [exact D|].
+    destruct D as [<- D]. cbn [cbind].
+    assert (R3 : srel (s2, 0, k2) {| buf := []; keep := keep rd2 |}).
+    { destruct D as [-> D]. split; [reflexivity|lia]. }
+    rewrite (gnext_eq _ _ _ R3).
+    destruct (next_line {| buf := []; keep := keep rd2 |} i3) as [i5 [e5|u]]; cbn [cbind]; [simpl; auto|].
+    apply IHfuel. exact R3.
+Qed.
+
+Lemma gskip_comments_rel : forall st rd is, srel st rd -> crel srel (gskip_comments fc st is) (skip_comments rd is).
+Proof.
+  intros st rd is H. unfold gskip_comments, skip_comments.
+  destruct (eofb is); [simpl; auto|].
+  destruct (s_peek is) as [c i1]. unfold oceq. change g_end with nl.
+  destruct (match c with Some c' => Ascii.eqb c' nl | None => false end); [simpl; auto|].
+  apply gskip_loop_rel. assumption.
+Qed.
+
+Definition vrel (a : list V * gstate) (b : list V * reader) : Prop := fst a = fst b /\ srel (snd a) (snd b).
+
+Lemma gread_n_rel : forall n st rd is acc, srel st rd -> crel vrel (gread_n fc garbage sep n st is acc) (read_n P sep n rd is acc).
+Proof.
+  induction n; intros st rd is acc H; simpl; [split; [reflexivity|split; [reflexivity|assumption]]|].
+  pose proof (gread_rel st rd is H) as C.
+  destruct (gread fc garbage sep st is) as [i1 [e1|[v1 st1]]], (read P sep rd is) as [i2 [e2|[v2 rd1]]]; simpl in C; try contradiction; [exact C|].
+  destruct C as [<- [<- C]]. cbn [cbind]. apply IHn. assumption.
+Qed.
+
+Lemma gread_all_rel : forall fuel st rd is acc, srel st rd -> crel vrel (gread_all fc garbage sep fuel st is acc) (read_all P sep fuel rd is acc).
+Proof.
+  induction fuel; intros st rd is acc H; simpl; [auto|].
+  rewrite (gdone_eq _ _ _ H). destruct (done rd is) as [i0 d].
+  destruct d; [split; [reflexivity|split; [reflexivity|assumption]]|].
+  pose proof (gread_rel st rd i0 H) as C.
+  destruct (gread fc garbage sep st i0) as [i1 [e1|[v1 st1]]], (read P sep rd i0) as [i2 [e2|[v2 rd1]]]; simpl in C; try contradiction; [exact C|].
+  destruct C as [<- [<- C]]. cbn [cbind]. apply IHfuel. assumption.
+Qed.
+
+Lemma gfinish_rel : forall x y, crel vrel x y -> gfinish fc x = finish_row y.
+Proof.
+  intros [i1 [e1|[vs st]]] [i2 [e2|[vs' rd]]] H; simpl in H; try contradiction.
+  - destruct H; subst. reflexivity.
+  - destruct H as [<- [E R]]. simpl in E, R. subst vs'. unfold gfinish, finish_row. cbn [cbind].
+    rewrite (gnext_eq _ _ _ R). destruct (next_line rd i1) as [i3 [e|u]]; reflexivity.
+Qed.
+
+Lemma srel0 : srel gstate0 reader0.
+Proof. split; [reflexivity|simpl; lia]. Qed.
+
+Theorem generated_read_row_impl_is_model : forall n is, g_read_row_impl fc garbage sep n is = read_row_impl P sep n is.
+Proof.
+  intros. unfold g_read_row_impl, read_row_impl.
+  pose proof (gskip_comments_rel gstate0 reader0 is srel0) as C.
+  destruct (gskip_comments fc gstate0 is) as [i1 [e1|st]], (skip_comments reader0 is) as [i2 [e2|rd]]; simpl in C; try contradiction.
+  - destruct C; subst. reflexivity.
+  - destruct C as [<- C]. cbn [cbind]. apply gfinish_rel. apply gread_n_rel. assumption.
+Qed.
+
+Theorem generated_read_row_std_vector_is_model : forall is, g_read_row_std_vector fc garbage sep is = read_row_std_vector P sep is.
+Proof.
+  intros. unfold g_read_row_std_vector, read_row_std_vector.
+  pose proof (gskip_comments_rel gstate0 reader0 is srel0) as C.
+  destruct (gskip_comments fc gstate0 is) as [i1 [e1|st]], (skip_comments reader0 is) as [i2 [e2|rd]]; simpl in C; try contradiction.
+  - destruct C; subst. reflexivity.
+  - destruct C as [<- C]. cbn [cbind]. apply gfinish_rel. apply gread_all_rel. assumption.
+Qed.
+End Rows.
+
+(* ------------------------------------------------------------------------------------------------ the property, on the generated code *)
+Lemma parse_of_bound : forall V (fc : list ascii -> fc_result V), fc_bound fc -> forall l v k, parse_of fc l = Some (v, k) -> k <= length l.
+Proof. intros V fc HB l v k. unfold parse_of. specialize (HB l). destruct (fc l); intros E; inversion E; subst. exact HB. Qed.
+
+Theorem generated_chunked_equals_spec64_vector :
+  forall (V : Type) (fc : list ascii -> fc_result V) (garbage : V) (sep : ascii) (numch : ascii -> bool),
+  fc_bound fc ->
+  (forall a c b, numch c = false -> parse_of fc (a ++ c :: b) = parse_of fc a) ->
+  numch sep = false -> numch plus = true ->
+  forall cs line t, row_wf cs line ->
+  match spec_row64 (parse_of fc) sep line with
+  | Some vs => g_read_row_std_vector fc garbage sep (gs (comment_block cs ++ line ++ nl :: t)) = (gs t, inr vs)
+  | None => exists e s', g_read_row_std_vector fc garbage sep (gs (comment_block cs ++ line ++ nl :: t)) = (s', inl e) /\ Tail s' t
+  end.
+Proof.
+  intros V fc garbage sep numch HB HL Hs Hp cs line t HW.
+  rewrite generated_read_row_std_vector_is_model by assumption.
+  exact (@read_row_std_vector_spec64 V (parse_of fc) sep numch (parse_of_bound V fc HB) HL Hs Hp cs line t HW).
+Qed.
+
+Theorem generated_chunked_equals_spec64_fixed :
+  forall (V : Type) (fc : list ascii -> fc_result V) (garbage : V) (sep : ascii) (numch : ascii -> bool),
+  fc_bound fc ->
+  (forall a c b, numch c = false -> parse_of fc (a ++ c :: b) = parse_of fc a) ->
+  parse_of fc [] = None ->
+  numch sep = false -> numch plus = true ->
+  forall n cs line t, row_wf cs line ->
+  match spec_row64_n (parse_of fc) sep n line with
+  | Some vs => g_read_row_impl fc garbage sep n (gs (comment_block cs ++ line ++ nl :: t)) = (gs t, inr vs)
+  | None => exists e s', g_read_row_impl fc garbage sep n (gs (comment_block cs ++ line ++ nl :: t)) = (s', inl e) /\ Tail s' t
+  end.
+Proof.
+  intros V fc garbage sep numch HB HL HN Hs Hp n cs line t HW.
+  rewrite generated_read_row_impl_is_model by assumption.
+  exact (@read_row_impl_spec64 V (parse_of fc) sep numch (parse_of_bound V fc HB) HL HN Hs Hp n cs line t HW).
+Qed.
